@@ -6,6 +6,7 @@ import PcfgVerif.Lemmas.TrainedAgreeF
 import PcfgVerif.Lemmas.ScoreB7
 import PcfgVerif.Lemmas.RunsLoader
 import PcfgVerif.Lemmas.BaseLoader
+import PcfgVerif.Lemmas.TrainedLoads
 import PcfgVerif.Properties.DetectCoreC
 /-!
 # C03 — every supported training password is reproduced by the trained grammar
@@ -191,5 +192,43 @@ theorem C03_view_bases_are_loaded (parseP : CPs → Option Rat) (showP : Rat →
         (Trainer.viewOf isAlpha cov pws.length (Trainer.train U cfg pws)).bases :=
   Trainer.loadBase_returns_viewBases parseP showP isAlpha hround cov pws.length _ hclean
     (Trainer.baseList_keys_split isAlpha hcap hdig cov pws.length _ (Trainer.train_baseok U cfg pws hpw))
+
+/-- the seven terminal sections of the ruleset trained on `pws`, in the order `_load_terminals` reads them, each with an arbitrary
+previous content of its folder (`Years/1.txt` and `Context/1.txt` are the variables `Y1`, `X1`) -/
+def trainedSections (U : Detect.UEnv) (cfg : Detect.MWCfg) (pws : List CPs) (olds : Char → List (String × CPs)) :
+    List (Char × Detect.LenCtr × List (String × CPs)) :=
+  let c := Trainer.train U cfg pws
+  [('A', c.alpha, olds 'A'), ('C', c.masks, olds 'C'), ('D', c.digits, olds 'D'), ('O', c.other, olds 'O'),
+   ('K', c.keyboard, olds 'K'), ('Y', [(1, c.years)], olds 'Y'), ('X', [(1, c.context)], olds 'X')]
+
+/-- **the guesser's terminal grammar of a trained ruleset is `viewCols`, file names and folders included**: `save_indexed_counters`
+writes one file `<n>.txt` per length (whatever the folder held), `create_filename_list` lists them, `_load_from_multiple_files` reads
+each section into the shared dict (`Model/LoadMulti.lean`, `Lemmas/LoadAll.lean`), `_load_from_file` cuts each list into runs
+(`Trainer.loader_returns_runs`).  All seven sections load, and the variable of every (section, length) holds exactly the column
+`Trainer.colOf` that `viewOf` assigns to it.  Hypotheses: print/parse round trip, clean values and probability text. -/
+theorem C03_trained_ruleset_loads (parseP : CPs → Option Rat) (showP : Rat → CPs) (hround : ∀ p, parseP (showP p) = some p)
+    (hshow : ∀ p, CleanProb (showP p)) (U : Detect.UEnv) (cfg : Detect.MWCfg) (pws : List CPs) (olds : Char → List (String × CPs))
+    (hclean : ∀ s ∈ trainedSections U cfg pws olds, ∀ e ∈ s.2.1, ∀ it ∈ e.2, CleanValue it.1) :
+    ∃ g', Trainer.loadAll ((trainedSections U cfg pws olds).map fun s => Trainer.trainedSect parseP showP s.1 s.2.1 s.2.2) [] = some g' ∧
+      ∀ s ∈ trainedSections U cfg pws olds, ∀ e ∈ s.2.1, ∃ gs, LoadMulti.lookup g' (Detect.lbl s.1 e.1) = some gs ∧
+        gs.map (fun g => (g.values, g.prob)) = Trainer.colOf e.2 := by
+  refine Trainer.trained_terminals_load parseP showP hround hshow _ (by simp [trainedSections]) ?_ hclean
+  have key : ∀ (field : Trainer.Counters → Detect.LenCtr) (items : Detect.Parsed → List CPs),
+      (∀ c p, field (c.update p) = Detect.updateLenIndexed (field c) (items p)) → field {} = [] →
+      ((field (Trainer.train U cfg pws)).map (·.1)).Nodup := by
+    intro field items hf h0
+    unfold Trainer.train Trainer.pass2
+    rw [Trainer.pass2_field U cfg _ field items hf, h0, Trainer.foldl_update_flatten]
+    exact Detect.update_keys_nodup [] _ (by simp)
+  intro s hs
+  simp only [trainedSections, List.mem_cons, List.not_mem_nil, or_false] at hs
+  rcases hs with rfl | rfl | rfl | rfl | rfl | rfl | rfl
+  · exact key (·.alpha) (·.alphas) (fun _ _ => rfl) rfl
+  · exact key (·.masks) (·.masks) (fun _ _ => rfl) rfl
+  · exact key (·.digits) (·.digits) (fun _ _ => rfl) rfl
+  · exact key (·.other) (·.others) (fun _ _ => rfl) rfl
+  · exact key (·.keyboard) (·.walks) (fun _ _ => rfl) rfl
+  · simp
+  · simp
 
 end Pcfg.C03
